@@ -6,7 +6,7 @@ MODULE = _buffer.MODULE
 LEAN_SUBDIRS = _buffer.LEAN_SUBDIRS
 THEOREMS = ['AiutiVerif.Buffer.C03_exactly_once', 'AiutiVerif.Buffer.C03_conservation', 'AiutiVerif.Buffer.C03_conservation_final',
             'AiutiVerif.Buffer.C03_only_submitted', 'AiutiVerif.Buffer.C03_all_delivered_at_rest',
-            'AiutiVerif.Buffer.C03_all_delivered_when_nothing_can_move',
+            'AiutiVerif.Buffer.C03_all_delivered_when_nothing_can_move', 'AiutiVerif.Buffer.C03_failed_call_is_offered_again',
             'AiutiVerif.Buffer.C07_C03_left_alone_everything_completes',
             'AiutiVerif.Buffer.C03_kept_on_failure', 'AiutiVerif.Buffer.C03_delivered_on_success',
             'AiutiVerif.Buffer.addInputs_superset', 'AiutiVerif.Buffer.runProgram_K', 'AiutiVerif.Buffer.K_fresh']
